@@ -3,13 +3,13 @@
 CAPINF = 1073741824
 
 
-def dec_cfg(tokens, first, maxtok, invs, caps="{1073741824}", fallback="kmp", width=0, paylen=0, props=()):
+def dec_cfg(tokens, first, maxtok, invs, caps="{1073741824}", fallback="kmp", width=0, paylen=0, props=(), spec="Spec"):
     """cfg text for MC_Decoder.tla; maxtok may be a function of the tier"""
     def mk(tier):
         mt = maxtok(tier) if callable(maxtok) else maxtok
         pl = paylen(tier) if callable(paylen) else paylen
         cp = caps(tier) if callable(caps) else caps
-        t = ["SPECIFICATION Spec", "CONSTANTS",
+        t = ["SPECIFICATION %s" % spec, "CONSTANTS",
              '  MatcherFallback = "%s"' % fallback, "  DiscWidth = %d" % width,
              "  Tokens <- %s" % tokens, "  FirstTokens <- %s" % first,
              "  MaxTok = %d" % mt, "  Caps %s" % (("= " + cp) if cp.startswith("{") else ("<- " + cp)), "  PayLen = %d" % pl]
@@ -60,6 +60,21 @@ MC = {
                  "cfg": dec_cfg("TokHIST", "FirstHIST", 12, ["TypeOK", "Sound", "Tiles", "BoundaryFresh", "IdleStepEq", "MatcherExact"], caps="{0, 1, 2, 5, 1073741824}")},
     "resync_noise": {"module": "MC_Decoder",
                      "cfg": dec_cfg("TokNOISE", "FirstNOISE", q(6, 8), ["TypeOK", "MatcherExact", "Resync", "Tiles"])},
+    "resync_calls": {"module": "MC_Decoder",
+                     "cfg": dec_cfg("TokNOISEH", "FirstNOISE", q(5, 6), ["TypeOK", "MatcherExact", "Resync", "Tiles", "BoundaryFresh"])},
+    # refinement: every behaviour of the decoder specification is accepted by the user-level contract (Contract.tla)
+    "contract_hist": {"module": "MC_Contract",
+                      "cfg": dec_cfg("TokHIST", "FirstHIST", q(3, 4), ["Refines", "SameBoundary", "OpenAgrees"], caps="{0, 1, 2, 1073741824}", spec="CSpec")},
+    "contract_adv": {"module": "MC_Contract",
+                     "cfg": dec_cfg("TokADV", "FirstADV", q(4, 5), ["Refines", "SameBoundary", "OpenAgrees"], spec="CSpec")},
+    "contract_noise": {"module": "MC_Contract",
+                       "cfg": dec_cfg("TokNOISEH", "FirstNOISE", q(5, 6), ["Refines", "SameBoundary", "OpenAgrees"], spec="CSpec")},
+    "contract_pay": {"module": "MC_Contract",
+                     "cfg": dec_cfg("TokPAY", "FirstPAY", 2, ["Refines", "SameBoundary", "OpenAgrees"], paylen=q(4, 6), spec="CSpec")},
+    "contract_cap": {"module": "MC_Contract",
+                     "cfg": dec_cfg("TokCAP", "FirstCAP", 2, ["Refines", "SameBoundary", "OpenAgrees"], caps=q("CapsQuick", "CapsThorough"), paylen=q(4, 6), spec="CSpec")},
+    "neg_contract_drop": {"module": "MC_Contract", "expect": "Refines",
+                          "cfg": dec_cfg("TokNOISE", "FirstNOISE", 6, ["Refines"], fallback="drop", spec="CSpec")},
     "roundtrip_pay": {"module": "MC_Decoder",
                       "cfg": dec_cfg("TokPAY", "FirstPAY", 2, ["TypeOK", "RoundTrip", "NothingAfter", "Sound", "Tiles"], paylen=q(4, 6))},
     "capacity_pay": {"module": "MC_Decoder",
@@ -150,11 +165,11 @@ def T(rule):
 PROPS = {
     "C01": dict(T("payload families PAY(k) over {1b,00,01,1a,55}, LEN (lengths around 2^8, 2^10, 2^13, 2^16), corpus and seeded random payloads; each encoded by "
                   "encode::<Vec>, encode::<ArrayBuf<N>>, encode_streaming and decoded by 11-14 front-end configurations; one record per (payload, frame); non-trivial = every record"),
-                mc={"quick": ["roundtrip_pay"], "thorough": ["roundtrip_pay"]},
+                mc={"quick": ["roundtrip_pay", "contract_pay"], "thorough": ["roundtrip_pay", "contract_pay"]},
                 steps=[{"cmd": "c01", "judge": "J_C01"}]),
     "C02": dict(T("every ok event of the real decoder front-ends (push, decode_streaming, SmlReader over iterator / io::Read) on ADV / INFRAME / HIST token trees, corpus dumps and "
                   "seeded mutations; a record is (payload, tail of the consumed prefix); distinct = distinct (prefix tail, payload) pairs; every record is an accepted frame"),
-                mc={"quick": ["sound_adv"], "thorough": ["sound_adv", "total_hist", "sim_hist"]},
+                mc={"quick": ["sound_adv", "contract_adv"], "thorough": ["sound_adv", "contract_adv", "total_hist", "sim_hist"]},
                 steps=[{"cmd": "c02", "judge": "J_C02"}]),
     "C05": dict(T("push/finalize/reset histories (HIST), INFRAME, NOISE, corpus, mutations on Decoder<Vec> and Decoder<ArrayBuf<N>> N in {0,1,2,3,8}, each followed by finalize + empty frame + finalize; "
                   "long runs (2^8, 2^16 +-1, 2^17+1) through all front-ends; overflow-checked build; distinct = distinct (capacity, event list)"),
@@ -165,9 +180,9 @@ PROPS = {
                 mc={"quick": ["encoders"], "thorough": ["encoders"]},
                 proofs=["pad_counter"],
                 steps=[{"cmd": "c07", "judge": "J_C07"}]),
-    "C08": dict(T("10 idle histories (new, after ok / invalid message / invalid escape - also with error bytes ending in 0x1b -, after reset / finalize) x all noise strings over {1b,01,55} up to length 7/9 + random noise over all byte values (incl. partial start sequences) x 5 payloads; every cut point of 265+ frames "
+    "C08": dict(T("14 idle histories (new, after ok / invalid message / invalid escape - also with error bytes ending in 0x1b -, after reset / finalize - also called while noise or a partial start sequence is pending) x all noise strings over {1b,01,55} up to length 7/9 + random noise over all byte values (incl. partial start sequences) x 5 payloads; every cut point of 265+ frames "
                   "followed by 3 frames; the antecedent (no start sequence in noise / no escape in progress) is evaluated by the monitor"),
-                mc={"quick": ["resync_noise"], "thorough": ["resync_noise"]},
+                mc={"quick": ["resync_noise", "resync_calls", "contract_noise"], "thorough": ["resync_noise", "resync_calls", "contract_noise"]},
                 proofs=["matcher"],
                 steps=[{"cmd": "c08", "judge": "J_C08"}]),
     "C14": dict(T("for every boundary event (ok, oom, invalid message, invalid escape, finalize, reset) in HIST / INFRAME / history-prefixed ADV streams, corpus and mutations, and capacities "
@@ -180,7 +195,7 @@ PROPS = {
                 steps=[{"cmd": "c15", "judge": "J_C15"}]),
     "C16": dict(T("payloads over {1b,00,55} up to length 6/8 + crafted tails + random, x every capacity 0..|m|+1 (<= 48), via Decoder<ArrayBuf<N>>, decode_streaming::<ArrayBuf<N>>, "
                   "SmlReader::with_static_buffer::<N>, each followed by an empty frame; 8 KiB default buffer with 8191/8192/8193-byte payloads"),
-                mc={"quick": ["capacity_pay"], "thorough": ["capacity_pay"]},
+                mc={"quick": ["capacity_pay", "contract_cap"], "thorough": ["capacity_pay", "contract_cap"]},
                 steps=[{"cmd": "c16", "judge": "J_C16"}]),
     "C03": dict(P("valid files from the harness generator (all value types, integer widths 1-8, optional masks, multi-byte / non-minimal TLFs, list lengths across 15/16, both time encodings, "
                   "1-byte checksum fields) with the generator's intended content, plus the corpus payloads and their message-boundary truncations; judged against SmlGrammar.ParseFile"),
@@ -224,9 +239,10 @@ PROPS = {
                 steps=[{"cmd": "c18", "judge": "J_C18", "tlcgen": "arraybuf_ops"}]),
     "C17": dict(T("every stream of ADV / INFRAME / HIST / NOISE, corpus, mutations with push+finalize and SmlReader (iterator, io::Read); noise runs of 255..2^17+1 bytes; "
                   "both the overflow-checked and the wrapping (release) build; record = (length, event list)"),
-                mc={"quick": ["tiles_adv", "tiles_hist"], "thorough": ["tiles_adv", "tiles_hist", "resync_noise"]},
+                mc={"quick": ["tiles_adv", "tiles_hist", "contract_hist"], "thorough": ["tiles_adv", "tiles_hist", "contract_hist", "resync_noise"]},
                 proofs=["matcher"],
-                steps=[{"cmd": "c17", "judge": "J_C17", "profile": "wrapping"}, {"cmd": "c17", "judge": "J_C17", "profile": "checked"}]),
+                steps=[{"cmd": "c17", "judge": "J_C17", "profile": "wrapping"}, {"cmd": "c17", "judge": "J_C17", "profile": "checked"},
+                       {"cmd": "c17", "judge": "J_Contract", "profile": "checked", "cfg": "JudgeN.cfg", "reuse": True}]),
 }
 
 NOT_APPLICABLE = {}
